@@ -186,8 +186,14 @@ func (c *Config) handleSvcConfigUpdate(svcName string, newCfg *service.Config) {
 	if sw.Endpoints == nil {
 		return
 	}
-	switch oldCfg {
-	case nil:
+	switch {
+	case oldCfg == nil:
+		c.emitSvcAddEvent(sw)
+	case oldCfg.Validate() != nil:
+		// NOTE: The processor of the service doesn't exist if it was never
+		// given a valid config, and the config event is ignored then. So emit
+		// the add event as well, which is ignored if the processor exists.
+		c.emitSvcConfigEvent(svcName, newCfg)
 		c.emitSvcAddEvent(sw)
 	default:
 		c.emitSvcConfigEvent(svcName, newCfg)
